@@ -103,6 +103,10 @@ def make_class(global_defaults=None, env_prefix=None):
     return Cfg
 
 
+PATH_OPS = ("get", "set", "del", "pop", "popitem", "clear", "setdefault", "update",
+            "contains", "len", "keys")
+
+
 class Session:
     """One case: scratch dir with the files, a real Config, sources we hold."""
 
@@ -114,6 +118,7 @@ class Session:
         self.sources = []     # (label, live object, deep snapshot) for C11
         self.keep_sources = keep_sources
         self.cfg = None
+        self.handles = {}     # held proxies: id -> DataProxy
 
     def close(self):
         shutil.rmtree(self.root, ignore_errors=True)
@@ -163,13 +168,20 @@ class Session:
             obj = getattr(obj, k) if use_attr else obj[k]
         return obj
 
-    def run_op(self, cfg, op, rng=None):
-        """returns (cfg', outcome).  cfg' differs from cfg only for clone."""
+    def run_op(self, cfg, op, rng=None, base=None):
+        """returns (cfg', outcome).  cfg' differs from cfg only for clone.
+        ``base``: the held proxy a path operation is applied to (default: root)."""
         name = op[0]
-        if name in ("get", "set", "del", "pop", "popitem", "clear", "setdefault", "update",
-                    "contains", "len", "keys"):
+        if name == "hold":       # ["hold", h, fl, kp]: h = c.<kp>
+            self.handles[op[1]] = self.nav(cfg, op[2], op[3], rng)
+            return cfg, {"none": 1}
+        if name == "via":        # ["via", h, path-op]
+            if op[1] not in self.handles or op[2][0] not in PATH_OPS:
+                return cfg, {"none": 1}
+            return self.run_op(cfg, op[2], rng, base=self.handles[op[1]])
+        if name in PATH_OPS:
             fl, kp = op[1], op[2]
-            obj = self.nav(cfg, fl, kp, rng)
+            obj = self.nav(cfg if base is None else base, fl, kp, rng)
             if name == "get":
                 v = getattr(obj, op[3]) if fl == "attr" else obj[op[3]]
                 return cfg, {"val": gt.jsonable(gt.deep_view(v))}
@@ -250,9 +262,11 @@ class Session:
             cfg.set_runtime_path(self.rt_path(op[1]))
         elif name == "clone":
             if op[1] is None:
-                return cfg.clone(), {"none": 1}
-            into = make_class(self.supply("into.global_defaults", op[1]))
-            return cfg.clone(into=into), {"none": 1}
+                new = cfg.clone()
+            else:
+                new = cfg.clone(into=make_class(self.supply("into.global_defaults", op[1])))
+            self.handles = {}     # held proxies belong to the object left behind
+            return new, {"none": 1}
         else:
             raise ValueError("unknown op %r" % (op,))
         return cfg, {"none": 1}
@@ -456,6 +470,18 @@ def c_op(op):
 
 def c_ops(ops):
     return ct.lst([c_op(o) for o in ops])
+
+
+def c_sop(op):
+    if op[0] == "hold":
+        return "(Hold %s %s %s)" % (ct.n(op[1]), c_fl(op[2]), c_path(op[3]))
+    if op[0] == "via":
+        return "(Via %s %s)" % (ct.n(op[1]), c_op(op[2]))
+    return "(Plain %s)" % c_op(op)
+
+
+def c_sops(ops):
+    return ct.lst([c_sop(o) for o in ops])
 
 
 def c_outcome(o):
